@@ -1,7 +1,10 @@
 //! C13 end to end: decode + render under an allocation limit, then drop everything and look at
 //! the tracker: budget fully restored, tracked peak never above the limit, exhaustion is an Err.
 //! `sweep <hex> <limit> [fail_from]` -> `<outcome> peak=<n> left=<n> outstanding=<n> allocs=<n>`
-use jxl_oxide::{AllocTracker, JxlImage, JxlThreadPool};
+//! `feeds <hex> <limit> <chunk> [fail_from]`: the same through incremental feeding in chunks of
+//! `chunk` bytes; after an error the caller KEEPS feeding the remaining chunks (errors counted),
+//! then renders whatever keyframes are there and drops everything.
+use jxl_oxide::{AllocTracker, InitializeResult, JxlImage, JxlThreadPool};
 use verif_harness::*;
 
 fn sweep(bytes: &[u8], limit: usize, fail_from: usize) -> String {
@@ -46,6 +49,94 @@ fn sweep(bytes: &[u8], limit: usize, fail_from: usize) -> String {
     )
 }
 
+fn feeds(bytes: &[u8], limit: usize, chunk: usize, fail_from: usize) -> String {
+    let tracker = AllocTracker::with_limit(limit);
+    tracker.verif_fail_from(fail_from);
+    let t2 = tracker.clone();
+    let outcome = catch(move || {
+        let mut uninit = Some(
+            JxlImage::builder()
+                .pool(JxlThreadPool::none())
+                .alloc_tracker(t2)
+                .build_uninit(),
+        );
+        let mut image: Option<JxlImage> = None;
+        let mut errs = 0usize;
+        let mut first = String::new();
+        let mut pending: Vec<u8> = Vec::new();
+        for c in bytes.chunks(chunk.max(1)) {
+            pending.extend_from_slice(c);
+            if let Some(img) = image.as_mut() {
+                match img.feed_bytes(&pending) {
+                    Ok(n) => {
+                        pending.drain(..n.min(pending.len()));
+                    }
+                    Err(e) => {
+                        errs += 1;
+                        if first.is_empty() {
+                            first = format!("feed-err-{}", err_class(&*e));
+                        }
+                        pending.clear();
+                    }
+                }
+            } else if let Some(mut u) = uninit.take() {
+                match u.feed_bytes(&pending) {
+                    Ok(n) => {
+                        pending.drain(..n.min(pending.len()));
+                    }
+                    Err(e) => {
+                        errs += 1;
+                        if first.is_empty() {
+                            first = format!("feed-err-{}", err_class(&*e));
+                        }
+                        pending.clear();
+                    }
+                }
+                match u.try_init() {
+                    Ok(InitializeResult::NeedMoreData(u)) => uninit = Some(u),
+                    Ok(InitializeResult::Initialized(img)) => image = Some(img),
+                    Err(e) => {
+                        if first.is_empty() {
+                            first = format!("init-err-{}", err_class(&*e));
+                        }
+                        return first;
+                    }
+                }
+            }
+        }
+        let Some(image) = image else {
+            return if first.is_empty() { "uninit".into() } else { first };
+        };
+        let mut renders = Vec::new();
+        for k in 0..image.num_loaded_keyframes() {
+            match image.render_frame(k) {
+                Ok(r) => renders.push(r),
+                Err(e) => {
+                    if first.is_empty() {
+                        first = format!("render-err-{}", err_class(&*e));
+                    }
+                }
+            }
+        }
+        drop(renders);
+        drop(image);
+        if first.is_empty() { "ok".into() } else { format!("{}-x{}", first, errs) }
+    });
+    let outcome = match outcome {
+        Ok(s) => s,
+        Err(p) => p.replace(' ', "_"),
+    };
+    tracker.verif_fail_from(usize::MAX);
+    format!(
+        "{} peak={} left={} outstanding={} allocs={}",
+        outcome,
+        tracker.verif_peak_outstanding(),
+        tracker.verif_bytes_left(),
+        tracker.verif_outstanding(),
+        tracker.verif_alloc_calls()
+    )
+}
+
 fn main() {
     install_quiet_panic_hook();
     line_loop((), |_, w| match w {
@@ -54,6 +145,13 @@ fn main() {
             let Ok(limit) = limit.parse::<usize>() else { return "bad-op".into() };
             let ff = rest.first().and_then(|x| x.parse().ok()).unwrap_or(usize::MAX);
             sweep(&bytes, limit, ff)
+        }
+        ["feeds", hexs, limit, chunk, rest @ ..] => {
+            let Some(bytes) = unhex(hexs) else { return "bad-op".into() };
+            let Ok(limit) = limit.parse::<usize>() else { return "bad-op".into() };
+            let Ok(chunk) = chunk.parse::<usize>() else { return "bad-op".into() };
+            let ff = rest.first().and_then(|x| x.parse().ok()).unwrap_or(usize::MAX);
+            feeds(&bytes, limit, chunk, ff)
         }
         _ => "bad-op".into(),
     });
